@@ -106,6 +106,25 @@ pub fn decode_msg(
                 mon: MonSnap::take(&mon),
             })
         }
+        ReaderCfg::Sparse(total) => {
+            let mon = Monitor::new(step_budget(b.len() + 64), keep_log);
+            let m2 = mon.clone();
+            let total = *total as usize;
+            let r = guard(move || {
+                let mut r = SimSparse::new(b, total, m2);
+                let res = match opts {
+                    Some(o) => Message::<Vec<u8>>::try_read_validate(&mut r, crate_opts(o)),
+                    None => Message::<Vec<u8>>::try_read(&mut r),
+                };
+                let out = res.map(|m| from_crate_msg(&m));
+                (out, quiet_len(&r))
+            });
+            r.map(|(result, remaining)| MsgOut {
+                result,
+                remaining,
+                mon: MonSnap::take(&mon),
+            })
+        }
         ReaderCfg::Owned | ReaderCfg::Segmented(_) => {
             let cuts: &[usize] = match rcfg {
                 ReaderCfg::Segmented(c) => c,
@@ -168,6 +187,21 @@ pub fn decode_avps(b: &[u8], rcfg: &ReaderCfg, keep_log: bool) -> Result<AvpsOut
                 (conv(v), quiet_len(&r))
             });
             settle_reentry(&mon, rcfg, slot);
+            r.map(|(items, remaining)| AvpsOut {
+                items,
+                remaining,
+                mon: MonSnap::take(&mon),
+            })
+        }
+        ReaderCfg::Sparse(total) => {
+            let mon = Monitor::new(step_budget(b.len() + 64), keep_log);
+            let m2 = mon.clone();
+            let total = *total as usize;
+            let r = guard(move || {
+                let mut r = SimSparse::new(b, total, m2);
+                let v = AVP::try_read_greedy::<Vec<u8>>(&mut r);
+                (conv(v), quiet_len(&r))
+            });
             r.map(|(items, remaining)| AvpsOut {
                 items,
                 remaining,
